@@ -205,6 +205,7 @@ class AtomsEngine(Engine):
                     wl = [[rng.uniform(0.05, 30.0) for _ in range(rng.randrange(1, 5))], wl_u]
                 wdt = rng.choice(["float64", "float64", "float32", "int64", "int32"])
                 op = {"c": c, "op": "atten", "name": name, "reuse": rng.random() < 0.5, "wl_dtype": wdt,
+                      "again": rng.choice([None, None, "wavelength", "wavelength_unit", "density"]),
                       "n": [rng.choice([1.0, 0.5, rng.uniform(1e-3, 10.0), rng.uniform(1e20, 1e30)]),
                             rng.choice(N_UNITS)],
                       "wl": wl}
@@ -547,6 +548,37 @@ class AtomsEngine(Engine):
         if bad:
             ctx.violate("atten_value", f"attenuation_coefficient({op}) = {g.tolist()} 1/m, "
                         f"expected {exp.tolist()}", kind="atten_value")
+            return
+        again = op.get("again")
+        if again and wdt == "float64":
+            # the caller changes ITS OWN argument objects in place and evaluates again with the very
+            # same objects: the result must be the formula at the values the objects hold NOW
+            mat = m if op.get("reuse") else Material(sp, n)
+            if not op.get("reuse"):
+                mat.attenuation_coefficient(wl)
+            if again == "wavelength":
+                wl *= 2.0
+                lam_A = lam_A * 2.0
+            elif again == "wavelength_unit" and wlu == "angstrom":
+                wl.unit = "nm"
+                lam_A = lam_A * 10.0
+            elif again == "density":
+                mat.effective_sample_number_density *= 0.5
+                n_m3 = n_m3 * 0.5
+            else:
+                return
+            ctx.probe("caller_changed_own_argument_in_place_then_called_again")
+            try:
+                got2 = sc.to_unit(sc.values(mat.attenuation_coefficient(wl)), "1/m", copy=True)
+            except Exception as e:  # noqa: BLE001
+                ctx.violate("atten_raised", f"second attenuation_coefficient raised {type(e).__name__}: {e}",
+                            kind="atten_raised")
+                return
+            exp2 = n_m3 * (row[6][0] + row[7][0] * lam_A / 1.7982) * 1e-28
+            g2 = np.atleast_1d(got2.values)
+            if g2.shape != exp2.shape or not np.all(np.abs(g2 - exp2) <= 1e-12 * np.abs(exp2)):
+                ctx.violate("atten_value", f"after the caller changed its {again} in place, the same objects give "
+                            f"{g2.tolist()} 1/m, expected {exp2.tolist()} ({op})", kind="atten_value:stale")
 
     # ------------------------------------------------------------- reporting
     def nontrivial(self, scenario, result):
